@@ -42,9 +42,9 @@ func genRaceChains(seed int64, n int) []raceChain {
 			m := methodNames[rng.Intn(len(methodNames))]
 			st := raceStep{site: g.randSite(), call: sites.Call{Method: m, Src: randArg(rng), DTag: randArg(rng), Format: randArg(rng)}}
 			for _, e := range randElems(rng) {
-				st.call.Elems = append(st.call.Elems, e.value())
+				st.call.Elems = append(st.call.Elems, e.Value())
 			}
-			st.call.Err = elemSpec{[]string{"N", "W", "Z", "C", "P"}[rng.Intn(5)], randArg(rng)}.errValue()
+			st.call.Err = elemSpec{Kind: []string{"N", "W", "Z", "C", "P"}[rng.Intn(5)], Val: randArg(rng)}.ErrValue()
 			ch.steps = append(ch.steps, st)
 		}
 		out[i] = ch
